@@ -492,13 +492,22 @@ ActRrFixed(rph, pkph, alpha) ==
      Finish("rr_fixed", [ok |-> TRUE], (rph :> ([ty |-> "rp"] @@ rp)),
             [op |-> "rr_fixed", out |-> rph, pkp |-> pkph, alpha |-> alpha, expect |-> [ok |-> TRUE] @@ RpProj(rp)])
 
-\* adversary / network: a seed with one byte altered
-ActTamperSeed(out, seedh, d) ==
+\* adversary / network: a seed with its last byte altered, one byte appended (d, or zero), its last
+\* byte dropped, or no bytes at all (the seed is an arbitrary byte string, hashed whole)
+TamperedSeed(b, how, d) ==
+  CASE how = "last"    -> [b EXCEPT ![Len(b)] = (@ + d) % 256]
+    [] how = "append"  -> Append(b, d)
+    [] how = "append0" -> Append(b, 0)
+    [] how = "trunc"   -> SubSeq(b, 1, Len(b) - 1)
+    [] how = "empty"   -> << >>
+
+ActTamperSeedHow(out, seedh, how, d) ==
   /\ Has(seedh)
   /\ ro' = ro
-  /\ LET b == env[seedh].b IN
-     Finish("tamper_seed", [ok |-> TRUE], (out :> [ty |-> "bytes", b |-> [b EXCEPT ![Len(b)] = (@ + d) % 256]]),
-            [op |-> "tamper_seed", out |-> out, src |-> seedh, d |-> d])
+  /\ Finish("tamper_seed", [ok |-> TRUE], (out :> [ty |-> "bytes", b |-> TamperedSeed(env[seedh].b, how, d)]),
+            [op |-> "tamper_seed", out |-> out, src |-> seedh, how |-> how, d |-> d])
+
+ActTamperSeed(out, seedh, d) == ActTamperSeedHow(out, seedh, "last", d)
 
 ActRrSign(out, pkgh, nonh, kph, seedh) ==
   /\ Has(pkgh) /\ Has(nonh) /\ Has(kph) /\ Has(seedh)
@@ -518,6 +527,7 @@ ActRrSignFixed(out, pkgh, nonh, kph, rph) ==
                  [op |-> "rr_sign_fixed", out |-> out, pkg |-> pkgh, non |-> nonh, kp |-> kph, rp |-> rph,
                   expect |-> IF o[2].ok THEN [ok |-> TRUE, z |-> o[2].z] ELSE ErrProj(o[2])])
 
+StructuralErrs == {"IncorrectNumberOfShares", "UnknownIdentifier"}
 ActRrAggregate(out, pkgh, slots, pkph, mode, rph) ==
   /\ Has(pkgh) /\ Has(pkph) /\ Has(rph) /\ \A i \in DOMAIN slots : Has(slots[i])
   /\ \E o \in Outcomes(ro, "rr_aggregate",
@@ -528,7 +538,10 @@ ActRrAggregate(out, pkgh, slots, pkph, mode, rph) ==
        /\ Finish("aggregate", res, IF res.ok THEN (out :> [ty |-> "sig", R |-> res.R, z |-> res.z]) ELSE << >>,
                  [op |-> "aggregate", out |-> out, pkg |-> pkgh, shares |-> Pairs(slots), pkp |-> pkph,
                   mode |-> mode, rp |-> rph,
-                  expect |-> IF res.ok THEN [ok |-> TRUE, R |-> res.R, z |-> res.z] ELSE ErrProj(res)])
+                  \* a refusal on the shape of the inputs (before any signature arithmetic) is the one plain
+                  \* aggregation gives on the same inputs: threshold enforcement is unchanged under randomization
+                  expect |-> IF res.ok THEN [ok |-> TRUE, R |-> res.R, z |-> res.z]
+                             ELSE ErrProj(res) @@ (IF res.err \in StructuralErrs THEN [structural_same |-> TRUE] ELSE << >>)])
 
 \* verify under the key held by any object with a `vk` (or `vk2` for randomized params)
 VkOf(h) == IF env[h].ty = "rp" THEN env[h].vk2 ELSE env[h].vk
